@@ -210,9 +210,58 @@ def exchange_library():
 
 def finish_exchange(ex):
     """message lists -> streams; qstarts[i] = stream offset at which the head of request i is complete."""
+    ex["qpoints"] = struct_points(ex["q"]); ex["spoints"] = struct_points(ex["s"])
+    ex["qmsgs"] = list(ex["q"]); ex["smsgs"] = list(ex["s"])
     ex["qstarts"] = [sum(len(m) for m in ex["q"][:i]) + ex["q"][i].index(b"\r\n\r\n") + 4 for i in range(len(ex["q"]))]
     ex["sstarts"] = [sum(len(m) for m in ex["s"][:i]) for i in range(len(ex["s"]))]
     ex["q"] = b"".join(ex["q"]); ex["s"] = b"".join(ex["s"])
+
+
+def struct_points(msgs):
+    """Structural cut points of a stream made of the given messages: for every message the middle of its first line, the position between the CR
+    and LF that end it, its end, the end of a header line in the middle of the head, the position inside the CRLF CRLF that ends the head, the end
+    of the head, the middle and the last byte of what follows the head, and one byte into the message."""
+    pts, off = set(), 0
+    for m in msgs:
+        l1 = m.find(b"\n") + 1
+        he = m.find(b"\r\n\r\n") + 4 if b"\r\n\r\n" in m else len(m)
+        cand = [1, l1 // 2, l1 - 1, l1, he - 2, he, he + (len(m) - he) // 2, len(m) - 1]
+        mid = m.find(b"\n", l1, he - 2)
+        if mid > 0:
+            cand.append(mid + 1)
+        pts |= {off + c for c in cand if 0 < c < len(m)}
+        off += len(m)
+        pts.add(off)
+    pts.discard(off)
+    return sorted(pts)
+
+
+def structural_interleavings(ex, rnd, k, maxcuts=2):
+    """k distinct legal schedules: each stream cut at up to maxcuts structural points (struct_points), the pieces interleaved in a random order
+    that keeps each stream's own order.  Illegal draws (a response before the head of its request) are re-drawn."""
+    seen, out, tries = set(), [], 0
+    while len(out) < k and tries < k * 40:
+        tries += 1
+        def cut(b, pts):
+            c = sorted(rnd.sample(pts, min(len(pts), rnd.randint(0, maxcuts))))
+            return [b[x:y] for x, y in zip([0] + c, c + [len(b)])], c
+        (qc, qp), (sc, sp) = cut(ex["q"], ex["qpoints"]), cut(ex["s"], ex["spoints"])
+        seq = [">"] * len(qc) + ["<"] * len(sc)
+        rnd.shuffle(seq)
+        key = (tuple(qp), tuple(sp), tuple(seq))
+        if key in seen:
+            continue
+        seen.add(key)
+        qi = si = 0
+        arr = []
+        for d in seq:
+            if d == ">":
+                arr.append((">", qc[qi])); qi += 1
+            else:
+                arr.append(("<", sc[si])); si += 1
+        if legal(arr, ex["qstarts"], ex["sstarts"]):
+            out.append(("si.q%s.s%s.%s" % ("_".join(map(str, qp)) or "w", "_".join(map(str, sp)) or "w", "".join("q" if d == ">" else "s" for d in seq)), arr))
+    return out
 
 
 def legal(arr, qstarts, sstarts):
